@@ -77,6 +77,8 @@ def run_case(case: dict) -> dict:
 
             mutate.apply(repo, case["mutant"])
         r = run_check(case["property"], repo)
+    except LookupError as exc:
+        return {"case": case["name"], "property": case["property"], "ok": True, "skipped": True, "why": f"skipped: {exc}"}
     except Exception as exc:  # noqa: BLE001
         return {"case": case["name"], "property": case["property"], "ok": False, "why": f"could not run: {exc}"}
     finally:
@@ -119,13 +121,14 @@ def sensitivity(prop: str) -> dict:
     """Thorough tier: the rule must still report each breaking variant and stay silent on each benign one."""
     cases = load_cases(prop)
     results = run_cases(cases, jobs=int(os.environ.get("VERIF_SENS_JOBS", "6")))
-    breaking = [r for r, c in zip(results, cases) if not c.get("silent")]
-    benign = [r for r, c in zip(results, cases) if c.get("silent")]
+    breaking = [r for r, c in zip(results, cases) if not c.get("silent") and not r.get("skipped")]
+    benign = [r for r, c in zip(results, cases) if c.get("silent") and not r.get("skipped")]
     rep = {
         "variants_breaking": len(breaking),
         "reported": sum(1 for r in breaking if r["ok"]),
         "variants_benign": len(benign),
         "benign_silent": sum(1 for r in benign if r["ok"]),
+        "skipped_not_applicable": [r["case"] for r in results if r.get("skipped")],
         "missed": [r["case"] + ": " + r["why"][:200] for r in breaking if not r["ok"]],
         "false_alarms": [r["case"] + ": " + r["why"][:200] for r in benign if not r["ok"]],
         "note": "variants are scratch copies of the tree under analysis with one patch or AST mutation applied; a missed variant is a weakness of the checker, reported here and by ./check --selftest, it does not change the exit status of the property check",
